@@ -200,6 +200,14 @@ func TestC02(t *testing.T) {
 		r.Count(fmt.Sprintf("passes_over_aws_kms_v%d", v), 1)
 	}
 	execAWSKMS = 0
+	// ... and both together: the AWS KMS plug-in's variable-length envelope stored through the DynamoDB plug-in of the
+	// same SDK generation (what a deployment on AWS runs)
+	for _, v := range []int{1, 2} {
+		execAWSKMS, execBackend = v, fmt.Sprintf("dynamodb-v%d", v)
+		explore(t, r, "C02", cells([]string{"nocache"}, []string{"enc"}), map[string]bool{"ms": true, "kms": true}, ev.Pick(2, 20))
+		r.Count(fmt.Sprintf("passes_over_aws_kms_and_dynamodb_v%d", v), 1)
+	}
+	execAWSKMS, execBackend = 0, "memory"
 	firstCallOutage(t, r)
 	// "returned 'already exists'": key inserts of several cold processes that really overlap inside the metastore
 	creators.Run(r, "C02", ev.Pick(30, 600), journal)
